@@ -561,3 +561,177 @@ def M2(ctx: Ctx) -> RuleResult:
 
 
 RULES['M2'] = M2
+
+
+# ------------------------------------------------------- M2g (guard-sensitive)
+def M2g(ctx: Ctx) -> RuleResult:
+    r = RuleResult('M2g', 'forcing constructors, guard-sensitive: operands re-wrapped under a constant operator have a type upper bound (from the guards on the node they are read from, fixed slot types, casts, dispatcher guards) inside the parameter type; undecided sites are counted, not reported')
+    from .rules_lattice import flagset
+    from .rules_rewrite import Shapes, canon, rewrite_eval, IH_FUNCS, _fname
+    from .rules_tables import binary_rows, unary_rows, oracle
+    from .terms import EnumMember, walk, alternatives
+    from .util import outcome_terms
+    forcing = forcing_fields(ctx)
+    preds = oracle('operators.json')['predicates']
+    urows = {row['token']: row for row in unary_rows(ctx).values()}
+    brows = {row['token']: row for row in binary_rows(ctx).values()}
+    slot_types = slot_const_types(ctx)
+    ev = rewrite_eval(ctx)
+    BOOL = {'BOOL'}
+    KIND_TYPES = {'not': BOOL, 'and': BOOL, 'or': BOOL, 'implies': BOOL, 'iff': BOOL}
+
+    def op_kind_types(kind: str, field: str, arity: Optional[int]) -> Optional[Set[str]]:
+        """is_<kind> on an operator definition -> union of the parameter types at `field` over the tokens it recognises"""
+        out: Set[str] = set()
+        found = False
+        if arity in (None, 1) and f'is_{kind}' in preds['unary'] and field in ('operand1', 'operand'):
+            for tok in preds['unary'][f'is_{kind}']:
+                if tok in urows:
+                    out |= set(urows[tok]['parameter'])
+                    found = True
+        if arity in (None, 2) and f'is_{kind}' in preds['binary'] and field in ('operand1', 'operand2'):
+            for tok in preds['binary'][f'is_{kind}']:
+                if tok in brows:
+                    out |= set(brows[tok]['p1' if field == 'operand1' else 'p2'])
+                    found = True
+        return out if found else None
+
+    # (f) dispatcher guards: helper -> facts about its first parameter
+    mods = [ctx.model.module('hpl.rewrite', 'M2g'), ctx.model.module('hpl.ast.predicates', 'M2g')]
+    dispatch: Dict[str, Set[str]] = {}
+    calls_count: Dict[str, int] = {}
+    for mod in mods:
+        for fi in mod.functions.values():
+            for n in ast.walk(fi.node):
+                if isinstance(n, ast.Call) and isinstance(n.func, ast.Name) and n.func.id in mod.functions:
+                    calls_count[n.func.id] = calls_count.get(n.func.id, 0) + 1
+    outcomes_cache = {}
+    for mod in mods:
+        for fi in list(mod.functions.values()) + [m for c in mod.classes.values() for m in c.methods.values()]:
+            try:
+                outcomes_cache[fi.key] = ev.run(fi)
+            except AnalysisError:
+                outcomes_cache[fi.key] = []
+    for key, outs in outcomes_cache.items():
+        for o in outs:
+            if o.kind == 'return' and _fname(o.value) and o.value.args:
+                h = _fname(o.value)
+                arg = o.value.args[0]
+                kinds = set()
+                for t, pol in o.guards:
+                    for x in walk(t):
+                        if pol and isinstance(x, Attr) and x.name.startswith('is_') and isinstance(x.base, Attr) and x.base.name == 'operator' and canon(x.base.base) == canon(arg):
+                            kinds.add(x.name[3:])
+                if kinds and calls_count.get(h, 0) == 1:
+                    dispatch.setdefault(h, set()).update(kinds)
+
+    def ub(x: Term, sh: Shapes, fi: FunctionInfo, depth: int = 0) -> Optional[Set[str]]:
+        if depth > 8:
+            return None
+        if isinstance(x, New):
+            return set()
+        if isinstance(x, Call) and call_name(x) == 'cast' and x.args:
+            fs = flagset(ctx, x.args[0])
+            return set(fs) if fs is not None else None
+        fn = _fname(x)
+        if fn and (fn.startswith('_simplify') or fn in IH_FUNCS) and x.args:
+            return ub(x.args[0], sh, fi, depth + 1)
+        c = canon(x)
+        if isinstance(c, Attr):
+            base = c.base
+            k = sh.kind.get(base)
+            if c.name in ('operand1', 'operand2'):
+                if k in KIND_TYPES:
+                    return set(KIND_TYPES[k])
+                # operator kind guard on the node: base.operator.is_K
+                for t, pol in getattr(sh, 'raw', []):
+                    for y in walk(t):
+                        if pol and isinstance(y, Attr) and y.name.startswith('is_') and isinstance(y.base, Attr) and y.base.name == 'operator' and canon(y.base.base) == base:
+                            v = op_kind_types(y.name[3:], c.name, None)
+                            if v is not None:
+                                return v
+                # dispatcher guard for the helper's own parameter
+                if isinstance(base, Sym) and fi.name in dispatch and base.name == (fi.params()[0] if fi.params() else None):
+                    acc: Set[str] = set()
+                    ok = True
+                    arity = 1 if base.cls == 'HplUnaryOperator' else 2 if base.cls == 'HplBinaryOperator' else None
+                    for kind in dispatch[fi.name]:
+                        v = op_kind_types(kind, c.name, arity)
+                        if v is None:
+                            ok = False
+                        else:
+                            acc |= v
+                    if ok and acc:
+                        return acc
+                return None
+            bt = ctx.ev.type_of(base)
+            cls_names = [bt.name] if bt is not None else []
+            if k in ('quant', 'forall', 'exists') or (bt is not None and bt.name == 'HplQuantifier'):
+                cls_names = ['HplQuantifier']
+            for cn in cls_names:
+                if (cn, c.name) in slot_types:
+                    return set(slot_types[(cn, c.name)])
+            if c.name == 'condition' and bt is not None and any(b.name == 'HplPredicate' for b in bt.mro()):
+                return set(BOOL)
+            return None
+        return None
+
+    n_sites = n_decided = 0
+    seen = set()
+    for key, outs in outcomes_cache.items():
+        fi = ctx.ev._fn_by_key[key]
+        for o in outs:
+            sh = Shapes()
+            sh.raw = list(o.guards) + [(a, True) for a in o.asserts]
+            for g, pol in o.guards:
+                sh.read(g, pol)
+            for a in o.asserts:
+                sh.read(a, True)
+            terms = outcome_terms(o) + list((o.env or {}).values())
+            for t in terms:
+                for x in walk(t):
+                    if not (isinstance(x, New) and x.cls in forcing):
+                        continue
+                    op = x.get('operator')
+                    tok = None
+                    if isinstance(op, Const):
+                        tok = op.value
+                    elif isinstance(op, EnumMember):
+                        v = ctx.ev.enum_value(op, 0)
+                        if isinstance(v, New) and isinstance(v.get('token'), Const):
+                            tok = v.get('token').value
+                    for fname, td in forcing[x.cls].items():
+                        arg = x.get(fname)
+                        if arg is None:
+                            continue
+                        if td[0] == 'const':
+                            want = set(td[1])
+                        elif tok is not None:
+                            row = urows.get(tok) if x.cls == 'HplUnaryOperator' else brows.get(tok)
+                            if row is None:
+                                continue
+                            want = set(row['parameter'] if x.cls == 'HplUnaryOperator' else row['p1' if td[1] == 'parameter1' else 'p2'])
+                        else:
+                            continue  # same-operator rewraps: R6 decides operand bookkeeping
+                        sk = (fi.qualname, x.cls, fname, repr(canon(arg))[:120])
+                        if sk in seen:
+                            continue
+                        seen.add(sk)
+                        n_sites += 1
+                        got = ub(arg, sh, fi)
+                        if got is None:
+                            continue
+                        n_decided += 1
+                        if got - want:
+                            r.fail(f'{fi.qualname}:{x.cls}.{fname}<-{repr(canon(arg))[:50]}', f'{fi.qualname} wraps {repr(canon(arg))[:60]} (type upper bound {sorted(got)}) as {fname} of a {tok or x.cls} node, whose validator narrows it in place to {sorted(want)}: a caller-owned node changes type', f'{fi.module.relpath}:{o.lineno}', sorted(want), sorted(got))
+                        else:
+                            r.ok(f'{fi.qualname}: {fname} <- {repr(canon(arg))[:50]} bounded by {sorted(got) or "fresh"}')
+    r.counts['argument sites'] = n_sites
+    r.counts['decided'] = n_decided
+    r.counts['dispatcher facts'] = len(dispatch)
+    r.notes.append(f'{n_sites - n_decided} argument sites undecided (parameters without dispatcher facts, symbolic operators)')
+    r.floor('argument sites', n_sites, 30)
+    return r
+
+
+RULES['M2g'] = M2g
